@@ -30,6 +30,8 @@ static void sched_sem_blocked(struct VSync *s);
 #define V_SEM_BLOCKED(s) sched_sem_blocked(s)
 #define V_MUTEX_CONTENDED(m) do { V_ASSUME(0); } while (0)  /* holder is suspended below us: schedule not expressible as nesting */
 #include "common/threads_model.h"
+#include "EbObject.h"
+#include "common/dctor_dispatch_srm.h"
 #include "Source/Lib/Common/Codec/EbSystemResourceManager.c"
 void svt_print_alloc_fail(const char *f, int l) { (void)f; (void)l; }
 
